@@ -1922,6 +1922,7 @@ func (c S3ApiController) PutActions(ctx *fiber.Ctx) error {
 			tags[tag.Key] = tag.Value
 		}
 
+		// the tags of an object: the object action, not the bucket tagging one
 		err = auth.VerifyAccess(ctx.Context(), c.be, auth.AccessOptions{
 			Readonly:      c.readonly,
 			Acl:           parsedAcl,
@@ -1930,7 +1931,7 @@ func (c S3ApiController) PutActions(ctx *fiber.Ctx) error {
 			Acc:           acct,
 			Bucket:        bucket,
 			Object:        keyStart,
-			Action:        auth.PutBucketTaggingAction,
+			Action:        auth.PutObjectTaggingAction,
 		})
 		if err != nil {
 			return SendResponse(ctx, err,
